@@ -208,6 +208,13 @@ func (t *Task) nextDelay() int {
 		return 1
 	case "slow":
 		return 8 + t.srng.Intn(57)
+	case "stall":
+		// a task that is now and then descheduled for milliseconds at a lock boundary (what a loaded
+		// machine does to a goroutine): windows between two lock acquisitions become wide
+		if t.srng.Intn(8) == 0 {
+			return 2000 + t.srng.Intn(18000)
+		}
+		return 1 + t.srng.Intn(8)
 	case "mixed":
 		if t.srng.Intn(16) == 0 {
 			return 50 + t.srng.Intn(450)
